@@ -17,7 +17,8 @@ for n in "${names[@]}"; do
   OUT="$(mktemp -d /tmp/hsverif-self.XXXXXX)"; cp "$HERE/known_findings.json" "$OUT/"
   fired=""
   for p in ${SELFTEST_PROPS:-$ALL}; do
-    if "$HERE/bin/hsverif" check "$p" quick -repo "$wt" -root "$OUT" 2>/dev/null | grep -q '^VIOLATION'; then fired="$fired $p"; fi
+    out="$("$HERE/bin/hsverif" check "$p" quick -repo "$wt" -root "$OUT" 2>/dev/null)"
+    case "$out" in *"VIOLATION property="*) fired="$fired $p";; esac
   done
   own="MISSED"; case " $fired " in *" $prop "*) own="caught";; esac
   echo "$n: breaks $prop -> $own by own check; all firing checks:${fired:- none}"
